@@ -14,7 +14,12 @@ import (
 
 	"cosmossdk.io/log"
 	sdkmath "cosmossdk.io/math"
+	"github.com/cosmos/cosmos-sdk/crypto/keys/ed25519"
+	"github.com/cosmos/cosmos-sdk/crypto/keys/secp256k1"
 	sdk "github.com/cosmos/cosmos-sdk/types"
+	authtypes "github.com/cosmos/cosmos-sdk/x/auth/types"
+	stakingkeeper "github.com/cosmos/cosmos-sdk/x/staking/keeper"
+	stakingtypes "github.com/cosmos/cosmos-sdk/x/staking/types"
 	"github.com/ethereum/go-ethereum/common"
 	"github.com/ethereum/go-ethereum/crypto"
 	"github.com/palomachain/paloma/v2/util/libcons"
@@ -53,7 +58,11 @@ type bhist struct {
 	tid     string
 	nonces  []uint64
 	vers    map[uint64][]bversion
-	regAddr [5]string         // lower-case hex address registered now
+	accs    []sdk.AccAddress  // orchestrator (= validator operator) accounts, model id = index
+	vals    []sdk.ValAddress
+	orchIdx map[string]int64
+	regAddr []string          // lower-case hex address registered now
+	stranger sdk.AccAddress   // an account that is no validator (model id strangerID, never given a status)
 	regAt   map[string]string // "<nonce>/<val>" -> address registered when the confirmation was accepted
 	steps   []string
 	replay  []map[string]any
@@ -82,12 +91,24 @@ func spellingClass(written string, a common.Address) string {
 
 func (h *bhist) keyAddr(i int) common.Address { return crypto.PubkeyToAddress(h.keys[i].PublicKey) }
 
-func newBHist(t *testing.T, run *emit.Run) *bhist {
+const strangerID = 900
+
+func newBHist(t *testing.T, run *emit.Run) *bhist { return newBHistN(t, run, 0) }
+
+// newBHistN: keeper.SetupFiveValChain plus [extra] more bonded validators, each with its own registered eth key.
+func newBHistN(t *testing.T, run *emit.Run, extra int) *bhist {
 	in, c := keeper.SetupFiveValChain(t)
 	ctx := sdk.UnwrapSDKContext(c).WithLogger(log.NewNopLogger())
 	in.Context = ctx
 	h := &bhist{t: t, run: run, in: in, ctx: ctx, ms: keeper.NewMsgServerImpl(in.SkywayKeeper), addrIDs: map[string]int64{}, strIDs: map[string]int64{}, keyIDs: map[string]int64{},
-		relIDs: map[string]int64{}, bodyIDs: map[string]int64{}, vers: map[uint64][]bversion{}, regAt: map[string]string{}}
+		relIDs: map[string]int64{}, bodyIDs: map[string]int64{}, vers: map[uint64][]bversion{}, regAt: map[string]string{}, orchIdx: map[string]int64{}}
+	for i := 0; i < 5; i++ {
+		h.accs = append(h.accs, keeper.AccAddrs[i])
+		h.vals = append(h.vals, keeper.ValAddrs[i])
+		h.orchIdx[keeper.AccAddrs[i].String()] = int64(i)
+		h.regAddr = append(h.regAddr, "")
+	}
+	h.stranger = sdk.AccAddress(append([]byte("c06-no-validator-acc"), 0, 0)[:20])
 	tok, err := types.NewEthAddress(erc20)
 	if err != nil {
 		t.Fatal(err)
@@ -130,10 +151,98 @@ func newBHist(t *testing.T, run *emit.Run) *bhist {
 			coq = append(coq, emit.Pair("1", emit.ZI(idOf(h.strIDs, x.Address)), emit.ZI(idOf(h.keyIDs, hex.EncodeToString(x.Pubkey))), emit.ZI(idOf(h.addrIDs, lower(a)))))
 			h.regAddr[v] = lower(a)
 		}
+		h.steps = append(h.steps, fmt.Sprintf("C06.BStep (C06.BStat %d %d) 0 [] []", v, h.statusCode(v)))
 		h.steps = append(h.steps, fmt.Sprintf("C06.BStep (C06.BReg %d %s) 0 [] []", v, emit.List(coq)))
 	}
 	h.replay = append(h.replay, map[string]any{"op": "setup: keeper.SetupFiveValChain, validator i registered with EthPrivKeys[i]"})
+	if extra > 0 {
+		h.addValidators(extra)
+	}
 	return h
+}
+
+// statusCode: the staking status of validator v as the staking keeper has it now (model codes, Skyway/Confirms.v).
+func (h *bhist) statusCode(v int) int64 {
+	val, err := h.in.StakingKeeper.GetValidator(h.ctx, h.vals[v])
+	if err != nil {
+		return 0
+	}
+	switch val.Status {
+	case stakingtypes.Unbonded:
+		return 1
+	case stakingtypes.Unbonding:
+		return 2
+	case stakingtypes.Bonded:
+		return 3
+	}
+	return 0
+}
+
+// addValidators: [extra] more validators through the staking msg server (as keeper.SetupTestChain does, which stops at a
+// hundred bonded validators), MaxValidators raised so that all are bonded; each registers an eth key of its own.
+func (h *bhist) addValidators(extra int) {
+	t, in, r := h.t, h.in, h.run.Rng
+	params, err := in.StakingKeeper.GetParams(h.ctx)
+	if err != nil {
+		t.Fatal(err)
+	}
+	params.MaxValidators = uint32(5 + extra + 8)
+	if err := in.StakingKeeper.SetParams(h.ctx, params); err != nil {
+		t.Fatal(err)
+	}
+	srv := stakingkeeper.NewMsgServerImpl(&in.StakingKeeper)
+	first := len(h.accs)
+	for i := 0; i < extra; i++ {
+		seed := make([]byte, 32)
+		r.Read(seed)
+		cons := ed25519.GenPrivKeyFromSecret(seed)
+		vk := secp256k1.GenPrivKeyFromSecret(seed)
+		valAddr := sdk.ValAddress(vk.PubKey().Address())
+		acc := sdk.AccAddress(valAddr)
+		account := in.AccountKeeper.NewAccount(h.ctx, authtypes.NewBaseAccount(acc, vk.PubKey(), uint64(100+i), 0))
+		coins := sdk.NewCoins(sdk.NewCoin(keeper.TestingStakeParams.BondDenom, keeper.StakingAmount))
+		if err := in.BankKeeper.MintCoins(h.ctx, types.ModuleName, coins); err != nil {
+			t.Fatal(err)
+		}
+		if err := in.BankKeeper.SendCoinsFromModuleToAccount(h.ctx, types.ModuleName, acc, coins); err != nil {
+			t.Fatal(err)
+		}
+		in.AccountKeeper.SetAccount(h.ctx, account)
+		if _, err := srv.CreateValidator(h.ctx, keeper.NewTestMsgCreateValidator(valAddr, cons.PubKey(), keeper.StakingAmount)); err != nil {
+			t.Fatalf("CreateValidator: %v", err)
+		}
+		b := make([]byte, 32)
+		r.Read(b)
+		b[0] |= 1
+		k, err := crypto.ToECDSA(b)
+		if err != nil {
+			t.Fatal(err)
+		}
+		h.keys = append(h.keys, k)
+		h.accs = append(h.accs, acc)
+		h.vals = append(h.vals, valAddr)
+		h.orchIdx[acc.String()] = int64(len(h.accs) - 1)
+		h.regAddr = append(h.regAddr, "")
+	}
+	if _, err := in.StakingKeeper.EndBlocker(h.ctx); err != nil {
+		t.Fatal(err)
+	}
+	for v := first; v < len(h.accs); v++ {
+		a := h.keyAddr(len(h.keys) - len(h.accs) + v)
+		written := spell(r, a)
+		if err := in.ValsetKeeper.AddExternalChainInfo(h.ctx, h.vals[v], []*valsettypes.ExternalChainInfo{
+			{ChainType: "evm", ChainReferenceID: chainName, Address: written, Pubkey: a.Bytes()}}); err != nil {
+			t.Fatalf("AddExternalChainInfo: %v", err)
+		}
+		h.regAddr[v] = lower(a)
+		st := h.statusCode(v)
+		if st != 3 {
+			t.Fatalf("validator %d is not bonded after the staking end blocker (status %d)", v, st)
+		}
+		h.steps = append(h.steps, fmt.Sprintf("C06.BStep (C06.BStat %d %d) 0 [] []", v, st))
+		h.steps = append(h.steps, fmt.Sprintf("C06.BStep (C06.BReg %d [(1, %d, %d, %d)]) 0 [] []", v, idOf(h.strIDs, written), idOf(h.keyIDs, hex.EncodeToString(a.Bytes())), idOf(h.addrIDs, lower(a))))
+	}
+	h.replay = append(h.replay, map[string]any{"op": fmt.Sprintf("setup: %d more validators created through the staking msg server (MaxValidators %d), all bonded, validator v registered with its own eth key", extra, params.MaxValidators)})
 }
 
 func (h *bhist) stored(nonce uint64) *types.InternalOutgoingTxBatch {
@@ -174,10 +283,11 @@ func (h *bhist) noteVersions() {
 }
 
 func (h *bhist) valOfOrch(o string) int64 {
-	for i, a := range keeper.AccAddrs[:5] {
-		if a.String() == o {
-			return int64(i)
-		}
+	if i, ok := h.orchIdx[o]; ok {
+		return i
+	}
+	if o == h.stranger.String() {
+		return strangerID
 	}
 	return 99
 }
@@ -187,6 +297,9 @@ func (h *bhist) violate(id, what string) {
 		return
 	}
 	h.viol = true
+	if !violationBudget(h.run, id) {
+		return
+	}
 	h.run.Violate(id, what, map[string]any{"part": "batch", "history": h.replay})
 }
 
@@ -251,13 +364,21 @@ func (h *bhist) observe(after string) (string, string) {
 	return emit.List(bs), emit.List(cs)
 }
 
-func (h *bhist) step(op string, class int64, rep map[string]any) {
+func (h *bhist) step(op string, class int64, rep map[string]any) { h.stepObs(op, class, rep, true) }
+
+// stepObs: with obs the real store is projected for the model and the oracle evaluated; without (histories with more
+// than a hundred confirmations: every step in full would make the case quadratic) only the outcome class is compared.
+func (h *bhist) stepObs(op string, class int64, rep map[string]any, obs bool) {
 	rep["outcome"] = class
 	h.replay = append(h.replay, rep)
 	if class == 0 {
 		h.okOps++
 	} else {
 		h.rejOps++
+	}
+	if !obs {
+		h.steps = append(h.steps, fmt.Sprintf("C06.BStepNoObs (%s) %d", op, class))
+		return
 	}
 	b, c := h.observe(fmt.Sprint(rep["op"]))
 	h.steps = append(h.steps, fmt.Sprintf("C06.BStep (%s) %d %s %s", op, class, b, c))
@@ -316,6 +437,10 @@ func confirmClass(err error) int64 {
 		return 5
 	case strings.Contains(s, "already confirmed this batch"):
 		return 6
+	case strings.Contains(s, "validator does not exist"), strings.Contains(s, "no validator found"):
+		return 9
+	case strings.Contains(s, "validator is unbonded"):
+		return 10
 	}
 	return 50
 }
@@ -326,29 +451,55 @@ func (h *bhist) opConfirm() {
 	if !ok {
 		return
 	}
-	v := r.Intn(5)
+	v := r.Intn(len(h.accs))
+	if r.Intn(25) == 0 {
+		v = -1 // an orchestrator account that is no validator
+	}
+	h.confirmAs(v, n, false, true)
+}
+
+// confirmAs: orchestrator v (-1: the account that is no validator) sends MsgConfirmBatch for batch n.  plain: the
+// registered key over the current checkpoint, nothing else; otherwise the variants are drawn.
+func (h *bhist) confirmAs(v int, n uint64, plain, obs bool) {
+	r := h.run.Rng
+	orch, mv, reg := h.stranger, int64(strangerID), ""
+	if v >= 0 {
+		orch, mv, reg = h.accs[v], int64(v), h.regAddr[v]
+	}
 	signerKey := -1
 	for i := range h.keys {
-		if lower(h.keyAddr(i)) == h.regAddr[v] {
+		if lower(h.keyAddr(i)) == reg {
 			signerKey = i
 		}
 	}
 	how := "registered"
-	if signerKey < 0 || r.Intn(10) == 0 {
+	if signerKey < 0 || (!plain && r.Intn(10) == 0) {
 		signerKey = r.Intn(len(h.keys))
 		how = "other-key"
 	}
-	claimed := common.HexToAddress(h.regAddr[v])
-	if r.Intn(12) == 0 {
+	claimed := common.HexToAddress(reg)
+	if reg == "" {
+		claimed = h.keyAddr(signerKey)
+	}
+	if !plain && r.Intn(12) == 0 {
 		claimed = h.keyAddr(r.Intn(len(h.keys)))
 		how += "/claims-other-address"
+	}
+	if v < 0 {
+		how = "no-validator"
+	} else if st := h.statusCode(v); st != 3 {
+		how += fmt.Sprintf("/status-%d", st)
 	}
 	var cp []byte
 	var spec string
 	what := "current"
 	vs := h.vers[n]
 	keyID := idOf(h.addrIDs, lower(h.keyAddr(signerKey)))
-	switch k := r.Intn(20); {
+	k := 19
+	if !plain {
+		k = r.Intn(20)
+	}
+	switch {
 	case len(vs) == 0 || k == 0:
 		what = "junk"
 		cp = make([]byte, 32)
@@ -381,21 +532,40 @@ func (h *bhist) opConfirm() {
 	written := spell(r, claimed)
 	h.run.Count("signer-spelling", spellingClass(written, claimed))
 	_, err = h.ms.ConfirmBatch(h.ctx, &types.MsgConfirmBatch{
-		Nonce: n, TokenContract: spell(r, h.token.GetAddress()), EthSigner: written, Orchestrator: keeper.AccAddrs[v].String(), Signature: sig,
-		Metadata: valsettypes.MsgMetadata{Creator: keeper.AccAddrs[v].String(), Signers: []string{keeper.AccAddrs[v].String()}},
+		Nonce: n, TokenContract: spell(r, h.token.GetAddress()), EthSigner: written, Orchestrator: orch.String(), Signature: sig,
+		Metadata: valsettypes.MsgMetadata{Creator: orch.String(), Signers: []string{orch.String()}},
 	})
 	c := confirmClass(err)
 	if c == 50 {
 		h.t.Fatalf("ConfirmBatch: %v", err)
 	}
 	if err == nil {
-		h.regAt[fmt.Sprintf("%d/%d", n, v)] = h.regAddr[v]
+		h.regAt[fmt.Sprintf("%d/%d", n, mv)] = reg
+		if v < 0 || h.statusCode(v) < 2 {
+			h.violate("C06:confirmation-by-unbonded-or-no-validator", fmt.Sprintf("after confirm: batch %d accepted a confirmation of orchestrator %s whose validator is unbonded or does not exist", n, orch))
+		}
 	}
 	h.run.Count("op", "confirm")
 	h.run.Count("confirm-what", what+"/"+how)
 	h.run.Count("confirm-outcome", fmt.Sprint(c))
-	h.step(fmt.Sprintf("C06.BCnf %d %d 1 %d %s", v, n, idOf(h.addrIDs, lower(claimed)), spec), c,
-		map[string]any{"op": "confirm", "validator": v, "nonce": n, "eth_signer": written, "signing_key": signerKey, "signed": what, "checkpoint": hex.EncodeToString(cp), "signature": sig})
+	h.stepObs(fmt.Sprintf("C06.BCnf %d %d 1 %d %s", mv, n, idOf(h.addrIDs, lower(claimed)), spec), c,
+		map[string]any{"op": "confirm", "validator": mv, "orchestrator": orch.String(), "nonce": n, "eth_signer": written, "signing_key": signerKey, "signed": what, "checkpoint": hex.EncodeToString(cp), "signature": sig}, obs)
+}
+
+// opSetStatus: the staking module moves a validator between bonded / unbonding / unbonded (its record is rewritten in
+// place: what unbonding, jailing and re-bonding do to Status); skyway reads the status in confirmHandlerCommon.
+func (h *bhist) opSetStatus(v int, st int64) {
+	val, err := h.in.StakingKeeper.GetValidator(h.ctx, h.vals[v])
+	if err != nil {
+		h.t.Fatal(err)
+	}
+	val.Status = map[int64]stakingtypes.BondStatus{1: stakingtypes.Unbonded, 2: stakingtypes.Unbonding, 3: stakingtypes.Bonded}[st]
+	if err := h.in.StakingKeeper.SetValidator(h.ctx, val); err != nil {
+		h.t.Fatal(err)
+	}
+	h.run.Count("op", "set-status")
+	h.run.Count("status", fmt.Sprint(st))
+	h.step(fmt.Sprintf("C06.BStat %d %d", v, h.statusCode(v)), 0, map[string]any{"op": "staking status", "validator": v, "status": val.Status.String()})
 }
 
 var bests = []uint64{1, 21000, 299999, 300000, 300001, 123456789}
@@ -448,7 +618,7 @@ func (h *bhist) opEndBlock() {
 		for _, v := range r.Perm(5)[:2+r.Intn(4)] {
 			_, _ = h.ms.EstimateBatchGas(h.ctx, &types.MsgEstimateBatchGas{
 				Nonce: n, TokenContract: spell(r, h.token.GetAddress()), EthSigner: spell(r, common.HexToAddress(h.regAddr[v])), Estimate: base + uint64(r.Intn(3)),
-				Metadata: valsettypes.MsgMetadata{Creator: keeper.AccAddrs[v].String(), Signers: []string{keeper.AccAddrs[v].String()}},
+				Metadata: valsettypes.MsgMetadata{Creator: h.accs[v].String(), Signers: []string{h.accs[v].String()}},
 			})
 		}
 	}
@@ -533,7 +703,7 @@ func (h *bhist) registerSpelled(v, key, form int) {
 
 func (h *bhist) registerAs(v, key int, written string) {
 	a := h.keyAddr(key)
-	err := h.in.ValsetKeeper.AddExternalChainInfo(h.ctx, keeper.ValAddrs[v], []*valsettypes.ExternalChainInfo{
+	err := h.in.ValsetKeeper.AddExternalChainInfo(h.ctx, h.vals[v], []*valsettypes.ExternalChainInfo{
 		{ChainType: "evm", ChainReferenceID: chainName, Address: written, Pubkey: a.Bytes()}})
 	c := int64(0)
 	switch {
@@ -541,6 +711,8 @@ func (h *bhist) registerAs(v, key int, written string) {
 		h.regAddr[v] = lower(a)
 	case strings.Contains(err.Error(), "external account already registered"):
 		c = 8
+	case strings.Contains(err.Error(), "cannot be a pigeon"):
+		c = 11
 	default:
 		h.t.Fatalf("AddExternalChainInfo: %v", err)
 	}
@@ -557,8 +729,8 @@ func (h *bhist) finish() {
 // handover: validator a confirms, moves to a fresh key, validator b takes a's old key and confirms the same batch.
 func (h *bhist) opHandover() {
 	r := h.run.Rng
-	a := r.Intn(5)
-	b := (a + 1 + r.Intn(4)) % 5
+	a := r.Intn(len(h.accs))
+	b := (a + 1 + r.Intn(len(h.accs)-1)) % len(h.accs)
 	old := -1
 	for i := range h.keys {
 		if lower(h.keyAddr(i)) == h.regAddr[a] {
@@ -582,19 +754,93 @@ func runBatchHistory(t *testing.T, run *emit.Run) *bhist {
 		switch k := r.Intn(100); {
 		case k < 10:
 			h.opBuild()
-		case k < 60:
+		case k < 57:
 			h.opConfirm()
+		case k < 60:
+			h.opSetStatus(r.Intn(len(h.accs)), []int64{3, 3, 2, 1}[r.Intn(4)])
 		case k < 70:
 			h.opEstimate()
 		case k < 80:
 			h.opEndBlock()
 		case k < 86:
-			h.opRegister(r.Intn(5), r.Intn(len(h.keys)))
+			h.opRegister(r.Intn(len(h.accs)), r.Intn(len(h.keys)))
 		case k < 94:
 			h.opHandover()
 		default:
 			h.opRemove()
 		}
+	}
+	h.finish()
+	return h
+}
+
+// runBigSetHistory: a validator set of more than a hundred (keeper.SetupFiveValChain + 97..104 validators created through
+// the staking msg server, MaxValidators raised accordingly).  One batch; every validator confirms it through the real msg
+// server (a few with the drawn variants unless scripted); the five validators of the snapshot send gas estimates and the
+// module's EndBlocker elects one: UpdateBatchGasEstimate recomputes the checkpoint and has to delete ALL confirmations;
+// some validators confirm the new checkpoint; a second batch is confirmed by everybody and cancelled.  The store is
+// projected / the oracle evaluated every 25 confirmations and after each of the other steps.
+func runBigSetHistory(t *testing.T, run *emit.Run, scripted bool) *bhist {
+	r := run.Rng
+	extra := 97 + r.Intn(8)
+	h := newBHistN(t, run, extra)
+	nv := len(h.accs)
+	run.Count("big-set", fmt.Sprintf("validators=%d", nv))
+	if !scripted {
+		// some validators are on their way out: unbonding ones may still confirm, unbonded ones may not
+		for _, v := range r.Perm(nv)[:3] {
+			h.opSetStatus(v, []int64{2, 2, 1}[r.Intn(3)])
+		}
+	}
+	confirmAll := func(n uint64) {
+		for i, v := range r.Perm(nv) {
+			h.confirmAs(v, n, scripted || r.Intn(12) > 0, i%25 == 24 || i == nv-1)
+		}
+	}
+	elect := func(n uint64) {
+		before := h.stored(n).GasEstimate
+		for v := 0; v < 5; v++ {
+			_, _ = h.ms.EstimateBatchGas(h.ctx, &types.MsgEstimateBatchGas{
+				Nonce: n, TokenContract: h.token.GetAddress().Hex(), EthSigner: common.HexToAddress(h.regAddr[v]).Hex(), Estimate: 21000 + uint64(v%2),
+				Metadata: valsettypes.MsgMetadata{Creator: h.accs[v].String(), Signers: []string{h.accs[v].String()}},
+			})
+		}
+		cc := libcons.New(h.in.ValsetKeeper.GetCurrentSnapshot, h.in.Marshaler)
+		skyway.EndBlocker(h.ctx, h.in.SkywayKeeper, cc)
+		b := h.stored(n)
+		if b == nil || b.GasEstimate == before {
+			h.run.Count("big-set", "estimate NOT elected")
+			h.replay = append(h.replay, map[string]any{"op": "endblock:estimates (nothing elected)"})
+			h.observe("endblock:estimates")
+			return
+		}
+		h.run.Count("big-set", "estimate elected over >100 confirmations")
+		h.run.Count("op", "endblock:estimates")
+		h.step(fmt.Sprintf("C06.BUpd %d 1 %s", n, emit.ZU(b.GasEstimate)), 0, map[string]any{"op": "endblock:estimates -> elected estimate", "nonce": n, "estimate": b.GasEstimate})
+	}
+	h.opBuild()
+	n1 := h.nonces[0]
+	confirmAll(n1)
+	elect(n1)
+	// the new checkpoint is confirmed: by validators of both ends of the orchestrator address order and a few others
+	byAddr := r.Perm(nv)
+	sort.Slice(byAddr, func(i, j int) bool { return string(h.accs[byAddr[i]]) < string(h.accs[byAddr[j]]) })
+	again := []int{byAddr[0], byAddr[1], byAddr[nv-1], byAddr[nv-2], byAddr[nv-3]}
+	again = append(again, r.Perm(nv)[:4]...)
+	for _, v := range again {
+		h.confirmAs(v, n1, true, true)
+	}
+	h.opBuild()
+	n2 := h.nonces[1]
+	confirmAll(n2)
+	h.run.Count("op", "cancel")
+	err := h.in.SkywayKeeper.CancelOutgoingTXBatch(h.ctx, *h.token, n2)
+	if err != nil {
+		t.Fatalf("CancelOutgoingTXBatch: %v", err)
+	}
+	h.step(fmt.Sprintf("C06.BRem %d 1", n2), 0, map[string]any{"op": "cancel", "nonce": n2})
+	for _, v := range again[:3] {
+		h.confirmAs(v, n2, true, true)
 	}
 	h.finish()
 	return h
